@@ -1,0 +1,56 @@
+//go:build verif
+
+package cache
+
+import (
+	"time"
+
+	"github.com/thought-machine/please/src/core"
+)
+
+// This file only exports unexported things of the directory cache for the /verif conformance harness.
+
+// VerifDirCache is a handle on a directory cache that has no background cleaner running.
+type VerifDirCache struct{ c *dirCache }
+
+// VerifNewDirCache creates a directory cache rooted at dir without starting background cleaning.
+func VerifNewDirCache(dir string, compress bool) *VerifDirCache {
+	c := &dirCache{
+		Compress: compress,
+		Dir:      dir,
+		added:    map[string]uint64{},
+		mtime:    time.Date(2000, time.January, 1, 0, 0, 0, 0, time.UTC),
+	}
+	if compress {
+		c.Suffix = ".tar.gz"
+	}
+	return &VerifDirCache{c: c}
+}
+
+// Store stores the files of the target under the key.
+func (v *VerifDirCache) Store(target *core.BuildTarget, key []byte, files []string) {
+	v.c.Store(target, key, files)
+}
+
+// Retrieve retrieves the files of the target stored under the key.
+func (v *VerifDirCache) Retrieve(target *core.BuildTarget, key []byte, files []string) bool {
+	return v.c.Retrieve(target, key, files)
+}
+
+// Path returns the final path of the entry for the key.
+func (v *VerifDirCache) Path(target *core.BuildTarget, key []byte) string {
+	return v.c.getPath(target, key, "")
+}
+
+// TmpPath returns the in-progress path of the entry for the key.
+func (v *VerifDirCache) TmpPath(target *core.BuildTarget, key []byte) string {
+	return v.c.getFullPath(target, key, "", "=")
+}
+
+// Mark marks an entry as used by this process, as Store and Retrieve do.
+func (v *VerifDirCache) Mark(path string, size uint64) { v.c.markDir(path, size) }
+
+// Clean runs one cleaning pass and returns the total size it computed afterwards.
+func (v *VerifDirCache) Clean(highWaterMark, lowWaterMark uint64) uint64 {
+	return v.c.clean(highWaterMark, lowWaterMark)
+}
